@@ -103,4 +103,13 @@ theorem C04_fit_keeps_inherited_disqualification :
     ∧ EEM.Gen.Footprint.hourly_fit_path_rebinds_disqualification = [] := by
   decide +kernel
 
+/-- **no entry point can be left before its gate**: in the guard tables regenerated from the source, no `fit` / `predict` method
+has a `return` statement at or before its last guard (a short-cut that returns the model before the disqualification, type or
+timezone guard has been evaluated would let a call through the gate) -/
+theorem C04_src_no_return_before_the_gate :
+    EEM.Gen.Guards.dailyFit_returns_before_last_guard = 0 ∧ EEM.Gen.Guards.dailyPredict_returns_before_last_guard = 0 ∧
+    EEM.Gen.Guards.billingPredict_returns_before_last_guard = 0 ∧ EEM.Gen.Guards.hourlyFit_returns_before_last_guard = 0 ∧
+    EEM.Gen.Guards.hourlyPredict_returns_before_last_guard = 0 ∧ EEM.Gen.Guards.caltrackPredict_returns_before_last_guard = 0 := by
+  decide
+
 end EEM.Props.C04
